@@ -290,27 +290,35 @@ func c08Exec(cs *c08Hist, counters map[string]int64) (*wk.Failure, int) {
 			}
 		case "js":
 			var buf bytes.Buffer
-			_, esc := cc.WriteJS(&buf, op.File%len(cc.Reg.SoyFiles), op.ES6, st.cat(op.Cat))
+			jerr, esc := cc.WriteJS(&buf, op.File%len(cc.Reg.SoyFiles), op.ES6, st.cat(op.Cat))
 			if esc != nil {
 				counters["escaped_panics_left_to_C06"]++
+			} else if jerr == nil && buf.Len() > 0 {
+				counters["completed_js"]++
 			}
 		case "genfile":
 			f := cc.Reg.SoyFiles[op.File%len(cc.Reg.SoyFiles)]
 			func() {
 				defer func() { recover() }()
-				soyjs.NewGenerator(cc.Reg).WriteFile(io.Discard, f.Name)
+				if soyjs.NewGenerator(cc.Reg).WriteFile(io.Discard, f.Name) == nil {
+					counters["completed_genfile"]++
+				}
 			}()
 		case "evalexpr":
 			func() {
 				defer func() { recover() }()
 				if n, err := parse.Expr(op.Expr); err == nil {
-					soyhtml.EvalExpr(n)
+					if _, err := soyhtml.EvalExpr(n); err == nil {
+						counters["completed_evalexpr"]++
+					}
 				}
 			}()
 		case "recompile":
 			func() {
 				defer func() { recover() }()
-				cc.Bundle.Compile()
+				if _, err := cc.Bundle.Compile(); err == nil {
+					counters["completed_recompile"]++
+				}
 			}()
 		default:
 			return &wk.Failure{Class: "invalid-case", Detail: "unknown op " + op.Op}, done
